@@ -2,6 +2,8 @@ package props
 
 import (
 	"fmt"
+	"github.com/freeconf/yang/meta"
+	"net/url"
 	"strings"
 
 	"github.com/freeconf/yang/node"
@@ -277,6 +279,7 @@ func c16RunPlace(op string) eng.Result {
 	}
 	if op == "=" {
 		c16BothWhens(&res, ss)
+		c16Compound(&res, ss)
 	}
 	res.Outcomes = []string{"place" + op}
 	return res
@@ -285,23 +288,29 @@ func c16RunPlace(op string) eng.Result {
 // c16BothWhens: a node that states a when of its own and gets another one from the uses or the
 // augment that adds it is there only when both hold (RFC 7950 7.21.5).
 func c16BothWhens(res *eng.Result, ss *sigSet) {
+	// the members' own conditions disagree with each other for some operand values
 	text := `module wb { namespace "urn:wb"; prefix wb; revision 0;
   container u { leaf uz { type int32; } leaf keep { type string; }
     uses g { when "uz>5"; } }
-  grouping g { leaf gu { when "uz<20"; type string; } container gc { when "../uz<20"; leaf q { type string; } } }
+  grouping g { leaf gu { when "uz<20"; type string; } container gc { when "../uz<15"; leaf q { type string; } } leaf g3 { when "uz<8"; type string; } leaf g4 { type string; } }
   container t { leaf tz { type int32; } }
-  augment "/t" { when "tz>5"; leaf au { when "tz<20"; type string; } container ac { when "../tz<20"; leaf q { type string; } } }
+  augment "/t" { when "tz>5"; leaf au { when "tz<20"; type string; } container ac { when "../tz<15"; leaf q { type string; } } leaf a3 { when "tz<8"; type string; } leaf a4 { type string; } }
 }`
 	m := model.LoadText(text)
+	upper := map[string]int{"u/gu": 20, "u/gc": 15, "u/g3": 8, "u/g4": 1 << 30, "t/au": 20, "t/ac": 15, "t/a3": 8, "t/a4": 1 << 30}
 	for _, p := range []c16Place{
 		{"uses/leaf-member-with-own-when", "u/gu", "u/uz", "u/keep"},
 		{"uses/container-member-with-own-when", "u/gc", "u/uz", "u/keep"},
+		{"uses/last-leaf-member-with-own-when", "u/g3", "u/uz", "u/keep"},
+		{"uses/member-without-own-when", "u/g4", "u/uz", "u/keep"},
 		{"augment/leaf-member-with-own-when", "t/au", "t/tz", "t/tz"},
 		{"augment/container-member-with-own-when", "t/ac", "t/tz", "t/tz"},
+		{"augment/last-leaf-member-with-own-when", "t/a3", "t/tz", "t/tz"},
+		{"augment/member-without-own-when", "t/a4", "t/tz", "t/tz"},
 	} {
-		for _, ov := range []int{3, 10, 25} {
-			truth := ov > 5 && ov < 20
-			class := map[int]string{3: "outer-false", 10: "both-true", 25: "own-false"}[ov]
+		for _, ov := range []int{3, 6, 10, 17, 25} {
+			truth := ov > 5 && ov < upper[p.guarded]
+			class := map[int]string{3: "outer-false", 6: "all-true", 10: "one-sibling-false", 17: "two-siblings-false", 25: "all-own-false"}[ov]
 			t := model.NewTree()
 			c16Put(t, p.operand, val.Int32(ov), "leaf")
 			kind := "leaf"
@@ -326,6 +335,108 @@ func c16BothWhens(res *eng.Result, ss *sigSet) {
 			case c16Has(got, p.guarded) != truth:
 				ss.add(site+fmt.Sprintf("/read/visible-%v-want-%v", c16Has(got, p.guarded), truth), desc+fmt.Sprintf("; read gives %s", got))
 			}
+		}
+	}
+}
+
+// c16Compound: expressions that combine comparisons (XPath and / or), or carry anything after a
+// comparison, either evaluate to what they mean or are refused with an error; they are never
+// silently cut down to their first comparison.
+func c16Compound(res *eng.Result, ss *sigSet) {
+	type ex struct {
+		name, text string
+		truth      func(z int) bool
+		valid      bool // an XPath 1.0 expression with a meaning
+	}
+	exprs := []ex{
+		{"and", "z>10 and z<12", func(z int) bool { return z > 10 && z < 12 }, true},
+		{"or", "z>100 or z<20", func(z int) bool { return z > 100 || z < 20 }, true},
+		{"and-second-false", "z>0 and z<0", func(z int) bool { return false }, true},
+		{"or-second-true", "z<0 or z>0", func(z int) bool { return z != 0 }, true},
+		{"two-comparisons-no-operator", "z>10 z<12", nil, false},
+		{"trailing-name", "z>10 garbage", nil, false},
+		{"segment-after-comparison", "z>10/keep", nil, false},
+		{"segment-after-leaf", "z/keep", nil, false},
+	}
+	for _, e := range exprs {
+		text := fmt.Sprintf(`module wc { namespace "urn:wc"; prefix wc; revision 0;
+  leaf z { type int32; } leaf keep { type string; } leaf g { when "%s"; type string; }
+  list l { key k; leaf k { type string; } leaf z { type int32; } leaf keep { type string; } }
+}`, e.text)
+		m, lerr, fr, msg := c11Load(text, nil, nil)
+		site := "C16/compound/" + e.name
+		if fr != "" {
+			ss.add(site+"/load/panic:"+fr, e.text+": "+msg)
+			continue
+		}
+		zs := []int{-5, 0, 5, 11, 15, 50, 150}
+		if lerr == nil {
+			// when on a leaf
+			for _, z := range zs {
+				t := model.NewTree()
+				t.Leaves["z"] = model.L(val.Int32(z))
+				t.Leaves["g"] = model.L(val.String("gg"))
+				got := model.NewTree()
+				var err error
+				fr, msg, pan := eng.Recover(func() {
+					err = node.NewBrowser(m, store.NewRef(t).Node()).Root().UpsertInto(store.ContainerNode(got))
+				})
+				res.Evals++
+				res.Nontriv++
+				_, visible := got.Leaves["g"]
+				switch {
+				case pan:
+					ss.add(site+"/when/panic:"+fr, fmt.Sprintf("when %q, z=%d: %s", e.text, z, msg))
+				case err != nil:
+					// refused: acceptable for every expression of this part
+				case !e.valid:
+					ss.add(site+"/when/evaluated-without-error", fmt.Sprintf("when %q, z=%d: g visible=%v, no error", e.text, z, visible))
+				case visible != e.truth(z):
+					ss.add(site+fmt.Sprintf("/when/visible-%v-want-%v", visible, e.truth(z)), fmt.Sprintf("when %q, z=%d", e.text, z))
+				}
+			}
+		}
+		// where on a list (the module is loaded without the when to have one)
+		mw := model.LoadText(`module wc { namespace "urn:wc"; prefix wc; revision 0;
+  leaf z { type int32; } leaf keep { type string; }
+  list l { key k; leaf k { type string; } leaf z { type int32; } leaf keep { type string; } }
+}`)
+		t := model.NewTree()
+		l := &model.List{}
+		var want []string
+		for _, z := range zs {
+			en := model.NewTree()
+			en.Leaves["k"] = model.L(val.String(fmt.Sprint("k", z)))
+			en.Leaves["z"] = model.L(val.Int32(z))
+			l.Entries = append(l.Entries, en)
+			if e.valid && e.truth(z) {
+				want = append(want, fmt.Sprint("k", z))
+			}
+		}
+		t.Lists["l"] = l
+		gotl := &model.List{}
+		var err error
+		fr, msg, pan := eng.Recover(func() {
+			var sel *node.Selection
+			sel, err = node.NewBrowser(mw, store.NewRef(t).Node()).Root().Find("l?where=" + url.QueryEscape(e.text))
+			if err == nil && sel != nil {
+				err = sel.UpsertInto(store.ListNode(gotl, model.DefAt(mw, "l").(*meta.List)))
+			}
+		})
+		res.Evals++
+		res.Nontriv++
+		var kept []string
+		for _, en := range gotl.Entries {
+			kept = append(kept, keyText(en.Leaves["k"].Canon))
+		}
+		switch {
+		case pan:
+			ss.add(site+"/where/panic:"+fr, fmt.Sprintf("where %q: %s", e.text, msg))
+		case err != nil:
+		case !e.valid:
+			ss.add(site+"/where/evaluated-without-error", fmt.Sprintf("where %q kept %v, no error", e.text, kept))
+		case strings.Join(kept, ",") != strings.Join(want, ","):
+			ss.add(site+"/where/wrong-entries", fmt.Sprintf("where %q kept %v want %v", e.text, kept, want))
 		}
 	}
 }
